@@ -100,6 +100,8 @@ pub struct View {
     pub live: Vec<usize>,
     pub dead: Vec<usize>,
     pub free_len: usize,
+    /// The links form a proper forest over current ids (every library loop terminates).
+    pub wf: bool,
 }
 
 impl View {
@@ -166,7 +168,37 @@ impl View {
             free_len += 1;
             c = ar.verif_slot(i).1.flatten();
         }
-        View { n, removed, par, prev, next, first, depth, root, head, slot, class, live, dead, free_len }
+        // well-formedness: links name current ids of live nodes, are mutually consistent, acyclic
+        let last: Vec<_> = sl.iter().map(|x| ix(x.last_child())).collect();
+        let mut wf = true;
+        for (i, x) in sl.iter().enumerate() {
+            let links = [x.parent(), x.previous_sibling(), x.next_sibling(), x.first_child(), x.last_child()];
+            for id in links.iter().flatten() {
+                let j = usize::from(*id) - 1;
+                wf &= j < n && !removed[j] && ar.verif_slot(j).0 == id.verif_stamp() && !removed[i];
+            }
+            if !wf {
+                break;
+            }
+            wf &= removed[i] == ar.verif_slot(i).1.is_some();
+            if removed[i] {
+                continue;
+            }
+            let p = par[i];
+            wf &= p != Some(i) && first[i].is_some() == last[i].is_some() && depth[i] <= n;
+            wf &= match prev[i] {
+                Some(y) => next[y] == Some(i) && par[y] == p,
+                None => p.map_or(true, |p| first[p] == Some(i)),
+            };
+            wf &= match next[i] {
+                Some(y) => prev[y] == Some(i) && par[y] == p,
+                None => p.map_or(true, |p| last[p] == Some(i)),
+            };
+            wf &= first[i].map_or(true, |c| par[c] == Some(i) && prev[c].is_none());
+            wf &= last[i].map_or(true, |c| par[c] == Some(i) && next[c].is_none());
+            wf &= prev[head[i]].is_none();
+        }
+        View { n, removed, par, prev, next, first, depth, root, head, slot, class, live, dead, free_len, wf }
     }
 
     fn is_anc(&self, b: usize, a: usize) -> bool {
@@ -295,6 +327,7 @@ pub struct Stats {
     pub histories: u64,
     pub commands: u64,
     pub mutating: u64,
+    pub illformed_stops: u64,
     pub ops: BTreeMap<String, u64>,
     pub rel: BTreeMap<String, u64>,
     pub node_class: BTreeMap<String, u64>,
@@ -327,13 +360,14 @@ impl Stats {
         }
         format!(
             "{{\n \"profile\": \"{}\",\n \"histories\": {},\n \"total_commands\": {},\n \"mutating_commands\": {},\n \
-             \"distinct_forest_shapes\": {},\n \"ops\": {},\n \"relation_classes\": {},\n \"node_classes\": {},\n \
+             \"histories_stopped_illformed\": {},\n \"distinct_forest_shapes\": {},\n \"ops\": {},\n \"relation_classes\": {},\n \"node_classes\": {},\n \
              \"outcomes\": {},\n \"arena_count\": {},\n \"live_nodes\": {},\n \"max_depth\": {},\n \
              \"toplevel_chains_len_ge2\": {},\n \"free_list_len\": {}\n}}\n",
             self.profile,
             self.histories,
             self.commands,
             self.mutating,
+            self.illformed_stops,
             self.shapes.len(),
             m(&self.ops),
             m(&self.rel),
@@ -450,13 +484,23 @@ impl<H: Hooks> Gen<H> {
         self.emit(&format!("hist {}", idx))?;
         let every = if self.cfg.profile == Profile::Iters { 4.0 } else { 8.0 };
         let mut steps = 0;
+        let mut wf = true;
         while steps < self.cfg.len {
             steps += self.step_mut()?;
+            // A corrupted forest (only reachable by misuse, or by a defect) can make any further
+            // library call loop forever: stop the history right here.
+            wf = View::build(&self.ex.cur).wf && self.ex.alt.as_ref().map_or(true, |a| View::build(a).wf);
+            if !wf {
+                self.stats.illformed_stops += 1;
+                break;
+            }
             if self.cfg.profile != Profile::Alloc && self.rng.chance(1.0 / every) {
                 self.observe(false)?;
             }
         }
-        self.observe(true)?;
+        if wf {
+            self.observe(true)?;
+        }
         self.hooks.hist_end(&mut self.ex, idx);
         self.emit("end")?;
         Ok(())
@@ -553,8 +597,8 @@ impl<H: Hooks> Gen<H> {
                 }
                 x -= wt;
             }
-            // warm-up: with fewer than 4 live nodes most draws would be `self` pairs
-            if v.live.len() < 4 && can_alloc && self.rng.chance(0.5) {
+            // warm-up: with few live nodes most draws would be `self` pairs and shapes stay trivial
+            if v.live.len() < 7 && can_alloc && self.rng.chance(0.45) {
                 op = if v.live.is_empty() || self.rng.chance(0.6) { "new" } else { "appv" };
             }
             let cmd = match op {
